@@ -185,8 +185,8 @@ const BUILDINFO: &[FieldSpec] = &[
     text!("Build-Tainted-By", "merged-usr-via-aliased-dirs", "merged-usr-via-aliased-dirs usr-local-has-programs"),
     // PathBuf::from / Path::display: never fails
     f!("Build-Path", false, ["/build/foo-1.0", "/build/reproducible-path/bar-2.0"], Normal, None),
-    // one NAME=value per line into a HashMap (printed in hash order: single entries only); a line without '=' is rejected
-    f!("Environment", false, ["LANG=C.UTF-8", "DEB_BUILD_OPTIONS=parallel=4"], Lines, Some("NOEQUALS")),
+    // one NAME=value per line into a HashMap (printed sorted by name since fix 9be0fd6); a line without '=' is rejected
+    f!("Environment", false, ["LANG=C.UTF-8", "DEB_BUILD_OPTIONS=parallel=4", "DEB_BUILD_OPTIONS=parallel=4\nLANG=C.UTF-8\nTZ=UTC"], Lines, Some("NOEQUALS")),
     rel!("Installed-Build-Depends"),
 ];
 
@@ -235,8 +235,8 @@ const DEP3_PATCH_HEADER: &[FieldSpec] = &[
 // ---- apt_sources::Repository ------------------------------------------------------------------------------
 const APT_REPOSITORY: &[FieldSpec] = &[
     f!("Enabled", false, ["yes", "no"], Exact, Some("maybe")),
-    // HashSet<RepositoryType> printed in hash order: one type per value only
-    f!("Types", true, ["deb", "deb-src"], Words, Some("rpm")),
+    // HashSet<RepositoryType> (printed sorted since fix 80a2fbd)
+    f!("Types", true, ["deb", "deb-src", "deb deb-src"], Words, Some("rpm")),
     // split_whitespace -> Url, printed with url::Url::as_str joined by " "
     f!("URIs", true, ["http://ports.ubuntu.com/", "https://deb.debian.org/debian", "http://ports.ubuntu.com/ https://deb.debian.org/debian"], Words, Some("nourl")),
     f!("Suites", true, ["noble", "noble noble-updates noble-backports"], Words, None),
